@@ -142,18 +142,21 @@ class Hamiltonian(SelfAdjointOperator, BasisManaged, EnergyUnitsManaged):
                         
         """
         if coupling_cutoff is None:
-            SS = super().diagonalize()
+            # eigenvalues are stored as they are: we work in internal units
+            with energy_units("int"):
+                SS = super().diagonalize()
             if self._has_remainder_coupling:
                 self.JR = numpy.dot(SS.T,numpy.dot(self.JR,SS))
             self.SS = SS
             return SS
         else:
             self.remove_cutoff_coupling(coupling_cutoff)
-            # diagonalize the strong coupling part
-            dd,SS = numpy.linalg.eigh(self.data)
-            self.data = numpy.zeros(self.data.shape,dtype=REAL)
-            for ii in range(0,self.data.shape[0]):
-                self.data[ii,ii] = dd[ii]
+            # diagonalize the strong coupling part (the stored values,
+            # i.e. internal units; `data` hands out converted copies)
+            dd,SS = numpy.linalg.eigh(self._data)
+            self._data = numpy.zeros(self._data.shape,dtype=REAL)
+            for ii in range(0,self._data.shape[0]):
+                self._data[ii,ii] = dd[ii]
             # transform the remainder of couling correspondingly
             self.JR = numpy.dot(SS.T,numpy.dot(self.JR,SS))
             self.SS = SS
@@ -171,11 +174,13 @@ class Hamiltonian(SelfAdjointOperator, BasisManaged, EnergyUnitsManaged):
             used in diagonalization back to the Hamiltonian.
         
         """
-        self.data = numpy.dot(self.SS,numpy.dot(self.data,self.SS.T))
-        if self._has_remainder_coupling:
-            self.JR = numpy.dot(self.SS,numpy.dot(self.JR,self.SS.T))
-        if with_remainder and self._has_remainder_coupling:                
-            self.data += self.JR
+        # the remainder coupling is kept in internal units
+        with energy_units("int"):
+            self.data = numpy.dot(self.SS,numpy.dot(self.data,self.SS.T))
+            if self._has_remainder_coupling:
+                self.JR = numpy.dot(self.SS,numpy.dot(self.JR,self.SS.T))
+            if with_remainder and self._has_remainder_coupling:                
+                self.data += self.JR
 
             
     def remove_cutoff_coupling(self, coupling_cutoff):
